@@ -104,15 +104,18 @@ class ResetLine:
     def __init__(self, drive, require_enable):
         self.drive = drive
         self.r = bool(require_enable)
+        self.r0 = self.r
 
-    def at_edge(self, en, dis):
-        """reset value the generator sees at this clock edge; then update."""
+    def at_edge(self, en, dis, ctx_reset=False):
+        """reset value the generator sees at this clock edge; then update.  ctx_reset: the reset of the context the
+        generator (and the process calling enable()/disable()) was made from is active at this edge: the generator is
+        in reset and the enable register returns to its initial value."""
         if self.drive == "signal":
-            return bool(dis)
+            return bool(dis) or bool(ctx_reset)
         seen = self.r
         if self.drive == "method":
-            self.r = not en
-        return seen
+            self.r = self.r0 if ctx_reset else (not en)
+        return seen or bool(ctx_reset)
 
 
 # ----------------------------------------------------------------------------- ClockDivider
